@@ -109,6 +109,15 @@ func (s *Server) Run(ctx context.Context, run *univ.Run, query, opName string, v
 	out := &Real{}
 	ctx = univ.WithRun(ctx, run)
 	ctx = graphql.StartOperationTrace(ctx)
+	// a request without variables arrives either with no variables member at all (nil map) or with
+	// an empty object: both must behave alike; which one is used depends on the query text only
+	if len(vars) == 0 {
+		if univ.H("novars", query)%2 == 0 {
+			vars = nil
+		} else {
+			vars = map[string]any{}
+		}
+	}
 	params := &graphql.RawParams{Query: query, OperationName: opName, Variables: vars}
 	opCtx, errs := s.Exec.CreateOperationContext(ctx, params)
 	if len(errs) > 0 {
